@@ -73,13 +73,18 @@ pub open spec fn moved_out(p: Primitive) -> Option<Primitive> {
 }
 // `==` of two Primitives (derived PartialEq): values of different variants are never equal -- a pointer never equals the value it points to
 pub uninterp spec fn prim_eq(a: Primitive, b: Primitive) -> bool;
-#[verifier::external_body]
-pub fn prim_equal(a: &Primitive, b: &Primitive) -> (r: bool)
-    ensures r == prim_eq(*a, *b),
-            (*a is Bool && *b is Bool) ==> r == (a->Bool_0 == b->Bool_0),
-            ((*a is Bool) != (*b is Bool)) ==> !r,
-            ((*a is HeapPrimitive) != (*b is HeapPrimitive)) ==> !r
-{ unimplemented!() }
+impl vstd::std_specs::cmp::PartialEqSpecImpl for Primitive {
+    open spec fn obeys_eq_spec() -> bool { true }
+    open spec fn eq_spec(&self, other: &Primitive) -> bool { prim_eq(*self, *other) }
+}
+impl PartialEq for Primitive {
+    #[verifier::external_body]
+    fn eq(&self, other: &Primitive) -> (r: bool)
+        ensures (*self is Bool && *other is Bool) ==> r == (self->Bool_0 == other->Bool_0),
+                ((*self is Bool) != (*other is Bool)) ==> !r,
+                ((*self is HeapPrimitive) != (*other is HeapPrimitive)) ==> !r
+    { unimplemented!() }
+}
 #[verifier::external_body]
 pub fn move_out_borrow(p: &Primitive) -> (r: Result<Primitive, VErr>)
     ensures moved_out(*p) is Some ==> r is Ok && r->Ok_0 == moved_out(*p)->Some_0, moved_out(*p) is None ==> r is Err
